@@ -175,8 +175,8 @@ var opKinds = []string{"checkout-force-branch", "checkout-force-hash", "checkout
 
 func run(c *vf.Ctx) {
 	g := gitx.New(c.Scratch)
-	nHist := c.N(8, 36)
-	perHist := c.N(14, 30)
+	nHist := c.N(6, 36)
+	perHist := c.N(12, 30)
 	var mu sync.Mutex
 	confirmSeen := map[string]bool{}
 	confirmPerKey := map[string]int{}
@@ -204,17 +204,34 @@ func run(c *vf.Ctx) {
 			c.Broken("ls-files base: %v", err)
 			return
 		}
+		// expected index entries of a commit, computed from the generated tree (blob ids hashed in-process) and
+		// validated against `git ls-tree -r` for one commit per history
 		lsTree := map[int][]twin.TreeEntry{}
 		treeOf := func(ci int) []twin.TreeEntry {
 			if v, ok := lsTree[ci]; ok {
 				return v
 			}
-			v, err := twin.LsTree(g, base.Dir, base.IDs[ci])
-			if err != nil {
-				c.Broken("ls-tree: %v", err)
+			var v []twin.TreeEntry
+			t := h.Commits[ci].Tree
+			for _, p := range t.Paths() {
+				v = append(v, twin.TreeEntry{Mode: t[p].Mode, Type: "blob", ID: twin.BlobID(t[p].Content), Path: p})
 			}
 			lsTree[ci] = v
 			return v
+		}
+		{
+			ci := r.Intn(len(h.Commits))
+			gt, err := twin.LsTree(g, base.Dir, base.IDs[ci])
+			mine := treeOf(ci)
+			ok := err == nil && len(gt) == len(mine)
+			for i := 0; ok && i < len(gt); i++ {
+				ok = gt[i].Mode == mine[i].Mode && gt[i].ID == mine[i].ID && gt[i].Path == mine[i].Path
+			}
+			if !ok {
+				c.Broken("MODEL-MISMATCH: expected index computed from the generated tree differs from git ls-tree -r of commit %d (%v)", ci, err)
+				return
+			}
+			c.Count("expected_index_validated_by_git_ls_tree", 1)
 		}
 
 		for ci := 0; ci < perHist; ci++ {
@@ -396,7 +413,7 @@ func run(c *vf.Ctx) {
 					fmt.Printf("STEP %d op=%+v\n pre=%v\n post=%v\n want=%v\n fails=%v\n", step, op, pre, ents, treeOf(op.Commit), fails)
 				}
 				// git's own view of tracked changes among non-skipped entries (deterministic sample)
-				if len(fails) == 0 && (ci+step)%3 == 0 {
+				if len(fails) == 0 && (ci+step)%4 == 0 {
 					stt := g.Run(B, "--no-optional-locks", "status", "--porcelain=v1", "-z", "--untracked-files=no", "--no-renames")
 					c.Count("git_status_reads", 1)
 					if stt.OK() && len(bytes.TrimSpace(stt.Out)) > 0 {
@@ -409,7 +426,7 @@ func run(c *vf.Ctx) {
 				}
 				ck := fmt.Sprintf("%d/%d/%s", hi, op.Commit, strings.Join(op.Dirs, "\x00"))
 				mu.Lock()
-				need := (ci+step)%6 == 0
+				need := (ci+step)%8 == 0
 				for _, f := range fails {
 					if confirmPerKey[f.key] < 4 {
 						need = true
@@ -466,11 +483,11 @@ func run(c *vf.Ctx) {
 	c.Extra("git_invocations", gitx.Calls.Load())
 	c.Extra("op_error_samples", errSamples)
 	c.Extra("failures_by_key_and_op", failByOp)
-	c.Floor("successful sparse operations", c.Counter("ops_succeeded"), c.N(80, 1000))
-	c.Floor("operations whose selection is a string prefix of a sibling name", c.Counter("ops_with_prefix_sibling"), c.N(25, 250))
-	c.Floor("operations materialising a selection of depth >= 3 from an empty worktree", c.Counter("ops_materialising_a_depth3plus_selection_from_an_empty_worktree"), c.N(8, 100))
+	c.Floor("successful sparse operations", c.Counter("ops_succeeded"), c.N(60, 1000))
+	c.Floor("operations whose selection is a string prefix of a sibling name", c.Counter("ops_with_prefix_sibling"), c.N(15, 250))
+	c.Floor("operations materialising a selection of depth >= 3 from an empty worktree", c.Counter("ops_materialising_a_depth3plus_selection_from_an_empty_worktree"), c.N(6, 100))
 	c.Floor("operations switching an earlier selection", c.Counter("ops_switching_selection"), c.N(10, 200))
-	c.Floor("model partitions confirmed by real git sparse checkout", c.Counter("git_confirmations"), c.N(12, 80))
+	c.Floor("model partitions confirmed by real git sparse checkout", c.Counter("git_confirmations"), c.N(8, 60))
 	c.Floor("operation kinds", c.SeenCount("op_kinds"), len(opKinds))
 	c.Assume("the property's set model (not git's cone mode, which also materialises files of parent directories) is the specification; git confirms it through non-cone patterns '/d/'")
 	c.Assume("MixedReset/SoftReset with SparseDirs are outside the domain: by definition they do not update the worktree")
